@@ -31,6 +31,9 @@ func execOp(op string) string {
 		fmt.Sscan(f[1], &a)
 		fmt.Sscan(f[2], &b)
 		return implNewm(a, b, f[3])
+	case "newapi":
+		fmt.Sscan(f[1], &a)
+		return execNewAPI(int(a))
 	}
 	return "bad-op"
 }
@@ -132,6 +135,14 @@ func (c *Ctx) runHistory(class string, ops []string) {
 		c.rep.violate(Violation{Kind: "property", Class: class, Op: "history: " + hist, Impl: lines[len(ops)], Detail: "a result returned earlier was altered by a later call"})
 	}
 	for i, op := range ops {
+		if strings.HasPrefix(op, "newapi ") {
+			// a call of a new entry point: only "returns normally" is demanded of it
+			c.rep.Evaluations++
+			if lines[i] != "called" {
+				c.rep.violate(Violation{Kind: "property", Class: class, Op: "history: " + hist, Impl: lines[i], Detail: "a new exported function panics or hangs"})
+			}
+			continue
+		}
 		m, s := c.drv.Ask(op)
 		impl := lines[i]
 		c.rep.Evaluations++
@@ -226,6 +237,7 @@ func propC13(c *Ctx) {
 	}
 	c.goMapPrimitives()  // the map/sync.Once vocabulary of the translated Language.mapping vs real Go
 	c.envProbesHistory() // the package under every environment variable its source consults (none on the unchanged tree)
+	c.newAPIProbes()     // the old API after a call of each NEW exported function (none on the unchanged tree)
 	vals := []int64{}
 	sent := []string{}
 	for li := range langVals {
